@@ -971,10 +971,10 @@ class Interp:
         """explore all paths of `entry`.
         prefix: list of decisions to replay first (worker mode).  frontier: if set, stop once that many pending states
         exist and return their decision lists (splitter mode).  on_path(st, kind, info) is called for every finished path."""
-        t0 = time.time(); s.deadline = t0 + timeout; s.tick = 0
+        t0 = time.time(); s.deadline = t0 + timeout; s.tick = 0; s.path_grace = getattr(s, 'path_grace', 150.0)
         st = s.start_state(entry)
         if prefix: st.forced = list(reversed(prefix))
-        s.pending = [st]; s.paths = 0; s.violations = []; s.pruned = 0; s.nviol = 0; s.incomplete = []
+        s.pending = [st]; s.paths = 0; s.violations = []; s.pruned = 0; s.nviol = 0; s.incomplete = []; s.preempted = False
         s.viol_count = collections.Counter(); s.keep_per_msg = 2
         status = 'done'
         while s.pending:
@@ -988,7 +988,7 @@ class Interp:
                 if on_path: on_path(st, 'ok', None)
             except SliceEnd:
                 # the time slice ended in the middle of a path: hand the path back as a decision prefix (it is re-executed from the start)
-                rs = State.__new__(State); rs.decisions = list(st.decisions); rs.forced = None; s.pending.append(rs); status = 'timeout'; break
+                rs = State.__new__(State); rs.decisions = list(st.decisions); rs.forced = None; s.pending.append(rs); status = 'timeout'; s.preempted = True; break
             except PathEnd:
                 s.pruned += 1
                 if on_path and not st.forced: on_path(st, 'pruned', None)     # its prefix was feasible: reachability witnesses on it count
@@ -1153,7 +1153,7 @@ class Interp:
                 else: raise Err('exec ' + k)
             st.insns += n_exec; stats['insn'] += n_exec
             s.tick += 1
-            if s.tick & 0x3FF == 0 and time.time() > s.deadline and not st.forced: raise SliceEnd()
+            if s.tick & 0x3FF == 0 and time.time() > s.deadline + s.path_grace and not st.forced: raise SliceEnd()
             if st.insns > max_insns: raise Violation('instruction budget of %d exceeded on one path (possible non-termination)' % max_insns, 'hang')
 
     def val(s, fr, o):
